@@ -142,17 +142,19 @@ func (r *rateLimiter) UpdateRateLimitConditionStatus(upstream string, condition 
 		return nil, fmt.Errorf("limit store for upstream %s upstream shard %v not found", upstream, shardId)
 	}
 
-	upstreamCondition, err := limitStore.Get(condition.Spec.UpstreamCluster, upstreamStateConditionName(condition.Spec.UpstreamCluster))
-	if err != nil {
-		return nil, err
-	}
-
 	mutex := r.upstreamLock[condition.Spec.UpstreamCluster]
 	if mutex == nil {
 		return nil, fmt.Errorf("interval error: upstreamLock not exist")
 	}
 	mutex.Lock()
 	defer mutex.Unlock()
+
+	// the upstream state must be read under the lock, otherwise concurrent
+	// reports of different instances allocate the same remaining quota
+	upstreamCondition, err := limitStore.Get(condition.Spec.UpstreamCluster, upstreamStateConditionName(condition.Spec.UpstreamCluster))
+	if err != nil {
+		return nil, err
+	}
 
 	oldCondition, err := limitStore.Get(condition.Spec.UpstreamCluster, condition.Name)
 	if errors.IsNotFound(err) {
